@@ -133,6 +133,32 @@ func (e *Engine) strIntrinsic(fn *ssa.Function, full string, args []Value) (Valu
 			cnt++
 			start = i + len(sub.bytes)
 		}
+	case "strings.Clone", "internal/stringslite.Clone":
+		return args[0], true
+	case "strings.Fields":
+		// ASCII white space only (a byte >= 0x80 would take the UTF-8 path)
+		sv := args[0].(StrVal)
+		noAtom(sv)
+		var parts []Value
+		start := -1
+		for i, b := range sv.bytes {
+			if e.decide(tCmp(">=", b, mkInt(128))) {
+				unsupported("strings.Fields on non-ASCII text")
+			}
+			sp := tOr(tEq(b, mkInt(' ')), tAnd(tCmp(">=", b, mkInt(9)), tCmp("<=", b, mkInt(13))))
+			if e.decide(sp) {
+				if start >= 0 {
+					parts = append(parts, StrVal{bytes: sv.bytes[start:i]})
+					start = -1
+				}
+			} else if start < 0 {
+				start = i
+			}
+		}
+		if start >= 0 {
+			parts = append(parts, StrVal{bytes: sv.bytes[start:]})
+		}
+		return mkSlice(parts), true
 	case "strings.IndexByte":
 		noAtom(args[0])
 		return mkInt(int64(e.indexFrom(args[0].(StrVal), StrVal{bytes: []*Term{args[1].(*Term)}}, 0))), true
